@@ -6,6 +6,7 @@ through WorkQueue / IncrementalPublisher / StreamItemQueue (W2, checks/microworl
 """
 from __future__ import annotations
 
+from sim.incremental import _walk
 from sim.oracle import Violation
 from sim.scenario import build_scenario
 from sim.tape import Tape
@@ -29,6 +30,11 @@ def protocol_violations(results, status, stats=None):
             continue
         seen_pe = set()
         for pe in rr.monitor.protocol_errors:
+            if pe.what == "defer_target_not_an_object" and isinstance(pe.detail, dict):
+                # was the missing target object created by a later payload after all?
+                ok_, target_ = _walk(rr.monitor.data, pe.detail.get("path") or ())
+                if ok_ and isinstance(target_, dict):
+                    pe.what = "defer_target_created_by_later_payload"
             if (pe.rule, pe.what) in seen_pe:
                 continue
             seen_pe.add((pe.rule, pe.what))
